@@ -341,14 +341,28 @@ def vocab(ctx):
     lps = [l for l in nodes_of_type(uf, (ast.For, ast.While))]
     if lps:
         lp = lps[0]
-        ctx.check(isinstance(lp, ast.For) and isinstance(lp.iter, ast.Call) and call_name(lp.iter) == "range", lp, "the retry loop is a bounded range loop", "the retry loop of unlink_file is not bounded by a range")
+        # bounded: a range loop, or a counting `while v <= N` whose counter starts at a constant and is incremented by a
+        # positive constant at the top level of the body, with no `continue` that could skip the increment
+        var = None
+        bounded = isinstance(lp, ast.For) and isinstance(lp.iter, ast.Call) and call_name(lp.iter) == "range"
+        if bounded and isinstance(lp.target, ast.Name):
+            var = lp.target.id
+        if isinstance(lp, ast.While) and isinstance(lp.test, ast.Compare) and len(lp.test.ops) == 1 and isinstance(lp.test.ops[0], (ast.Lt, ast.LtE)) and isinstance(lp.test.left, ast.Name):
+            var = lp.test.left.id
+            inc = [a for a in lp.body if isinstance(a, ast.AugAssign) and isinstance(a.op, ast.Add) and dotted(a.target) == var and isinstance(const_value(a.value), int) and const_value(a.value) > 0]
+            init = [a for a in nodes_of_type(uf, ast.Assign) if var in stores_to(a) and isinstance(const_value(a.value), int)]
+            conts = [x for s_ in lp.body for x in walk_local(s_) if isinstance(x, ast.Continue)]
+            others = [a for a in nodes_of_type(uf, (ast.Assign, ast.AugAssign)) if var in stores_to(a) and a not in inc and a not in init]
+            bounded = bool(inc) and bool(init) and not conts and not others and var not in names_in(lp.test.comparators[0])
+        ctx.check(bounded, lp, "the retry loop is bounded (range loop / counting while)", "the retry loop of unlink_file is not bounded by a range")
         ph = [h for t in nodes_of_type(uf, ast.Try) for h in t.handlers if h.type is not None and "PermissionError" in unparse(h.type)]
         for h in ph:
             rs = [r for st_ in h.body for r in walk_local(st_) if isinstance(r, ast.Raise)]
             ctx.check(bool(rs), h, "a PermissionError that persists is re-raised (reported by the tracker, not swallowed)", "unlink_file swallows a persistent PermissionError: the file silently stays")
             for r in rs:
                 facts = cond_facts([c_ for c_ in g.conditions_at(g.nodes_of(r)) if in_block(c_[0], h.body)])
-                ctx.check(facts in ([("retry_no == NUM_RETRIES", True)], [("NUM_RETRIES == retry_no", True)], [("NUM_RETRIES <= retry_no", True)]), r, "re-raised at the last attempt only", "the PermissionError is re-raised under %s" % facts)
+                v_ = var or "retry_no"
+                ctx.check(facts in ([("%s == NUM_RETRIES" % v_, True)], [("NUM_RETRIES == %s" % v_, True)], [("NUM_RETRIES <= %s" % v_, True)]), r, "re-raised at the last attempt only", "the PermissionError is re-raised under %s" % facts)
 
 
 def client_pairing(ctx):
